@@ -255,3 +255,114 @@ func TestGovcReplay(t *testing.T) {
 		return "pub", "TestGovcReplay", src, true
 	}
 }
+
+// Reference-model replays for the scalar methods of feed.Feed and history.History (C18): the solver's entry state
+// (bounds, cursor, offset / length) is rebuilt on the real types, the real method is run, and its result is compared
+// with the reference model the contract states.
+func init() {
+	feedB := func(method string) replayBuilder {
+		return func(vals map[string]string, sm *oblSummary) (string, string, string, bool) {
+			up, ok1 := ival(vals, "f->upperBound")
+			lo, ok2 := ival(vals, "f->lowerBound")
+			ix, ok3 := ival(vals, "f->index")
+			if !ok1 || !ok2 || !ok3 || up-lo > 4000 || up-lo < -4000 || ix > 1<<40 || ix < -(1<<40) {
+				return "", "", "", false
+			}
+			off, hasOff := ival(vals, "offset")
+			if !hasOff {
+				off = 0
+			}
+			if off > 1<<40 || off < -(1<<40) {
+				return "", "", "", false
+			}
+			var call, want string
+			switch method {
+			case "IsParent":
+				call = fmt.Sprintf("got := f.IsParent(%d); want := %d+%d < 0", off, ix, off)
+				want = "got != want"
+			case "IsChild":
+				call = fmt.Sprintf("got := f.IsChild(%d); want := %d+%d > 0", off, ix, off)
+				want = "got != want"
+			case "Contains":
+				call = fmt.Sprintf("got := f.Contains(%d); want := %d+%d < %d && %d+%d > %d", off, ix, off, up, ix, off, lo)
+				want = "got != want"
+			case "MoveUp":
+				call = fmt.Sprintf("f.MoveUp(); got := f.index; want := %d; if %d-1 > %d { want = %d - 1 }", ix, ix, lo, ix)
+				want = "got != want"
+			case "MoveDown":
+				call = fmt.Sprintf("f.MoveDown(); got := f.index; want := %d; if %d+1 < %d { want = %d + 1 }", ix, ix, up, ix)
+				want = "got != want"
+			case "MoveToCenter":
+				call = fmt.Sprintf("f.MoveToCenter(); got := f.index; want := %d; if 0 < %d && 0 > %d { want = 0 }", ix, up, lo)
+				want = "got != want"
+			default:
+				return "", "", "", false
+			}
+			src := fmt.Sprintf(`package feed
+
+import (
+	"errors"
+	"servitor/pub"
+	"testing"
+)
+
+// counterexample found by the solver for %s: a feed with exclusive bounds (%d, %d), cursor %d, offset %d
+func TestGovcReplay(t *testing.T) {
+	f := &Feed{feed: map[int]pub.Tangible{}, upperBound: %d, lowerBound: %d, index: %d}
+	for k := %d + 1; k < %d; k++ {
+		f.feed[k] = pub.NewFailure(errors.New("item"))
+	}
+	%s
+	if %s {
+		t.Fatalf("%s: got %%v, the reference model says %%v", got, want)
+	}
+}
+`, sm.Name, lo, up, ix, off, up, lo, ix, lo, up, call, want, method)
+			return "feed", "TestGovcReplay", src, true
+		}
+	}
+	for _, m := range []string{"IsParent", "IsChild", "Contains", "MoveUp", "MoveDown", "MoveToCenter"} {
+		replayBuilders["feed.Feed."+m] = feedB(m)
+	}
+	histB := func(method string) replayBuilder {
+		return func(vals map[string]string, sm *oblSummary) (string, string, string, bool) {
+			ix, ok1 := ival(vals, "h->index")
+			n, ok2 := ival(vals, "h->elements.l")
+			if !ok1 || !ok2 || n < 0 || n > 4000 {
+				return "", "", "", false
+			}
+			cp, ok3 := ival(vals, "h->elements.c")
+			if !ok3 || cp < n || cp > 8000 {
+				cp = n
+			}
+			var call string
+			switch method {
+			case "Back":
+				call = fmt.Sprintf("h.Back(); want := 0; if %d > 0 { want = %d - 1 }", ix, ix)
+			case "Forward":
+				call = fmt.Sprintf("h.Forward(); want := %d; if %d+1 < %d { want = %d + 1 }", ix, ix, n, ix)
+			default:
+				return "", "", "", false
+			}
+			src := fmt.Sprintf(`package history
+
+import "testing"
+
+// counterexample found by the solver for %s: a history of %d pages with the cursor on page %d
+func TestGovcReplay(t *testing.T) {
+	h := &History[int]{index: %d}
+	if %d > 0 {
+		h.elements = make([]int, %d, %d)
+	}
+	%s
+	if h.index != want || len(h.elements) != %d {
+		t.Fatalf("%s: cursor %%d of %%d pages, the reference model says cursor %%d of %d", h.index, len(h.elements), want)
+	}
+}
+`, sm.Name, n, ix, ix, n, n, cp, call, n, method, n)
+			return "history", "TestGovcReplay", src, true
+		}
+	}
+	replayBuilders["history.History.Back"] = histB("Back")
+	replayBuilders["history.History.Forward"] = histB("Forward")
+}
